@@ -403,12 +403,13 @@ def exec (P : Program) (env : Env) (events : List Kevent) : Stmt → St → Sign
          | Option.none => (.err .unmodelled, st))
       | _, _ => (.err .unmodelled, st)
   | .store t k v, st =>
-    match eval P env events st k with
+    -- Python evaluates the right-hand side first, then the subscript of the target
+    match eval P env events st v with
     | .error x => (.err x, st)
-    | .ok kv =>
-      match eval P env events st v with
+    | .ok vv =>
+      match eval P env events st k with
       | .error x => (.err x, st)
-      | .ok vv =>
+      | .ok kv =>
         match kv with
         | .int n => (match tableSet P st.tabs t n vv with | .ok t' => (.normal, { st with tabs := t' }) | .error x => (.err x, st))
         | _ => (.err .unmodelled, st)
